@@ -2,12 +2,15 @@ import PytaskModel.BuildTop
 import Driver.Proto
 import Driver.EngineCmd
 /-! Line-protocol front end for `BuildTop.buildTop`: `engine.top <cfg> picks=… conf=<exc> ph=<phase>:<exc>,… unconf=<exc>`
-where `<exc>` is an exception class name or `BASE`. Works on the project / world of the `engine.*` state. -/
+where `<exc>` is an exception class name or `BASE!<class>`; `imp=<exc>` = raised while a task module is imported. Works on the project / world of the `engine.*` state. -/
 namespace Driver
 open Pytask Pytask.Engine Pytask.BuildTop
 
 def parseExc (s : String) : Option Exc :=
-  if s == "" then none else if s == "BASE" then some .base else some (.exn s)
+  if s == "" then none
+  else match s.splitOn "!" with
+    | ["BASE", c] => some (.base c)      -- `BASE!SystemExit`
+    | _ => some (.exn s)
 
 def parsePhaseFaults (s : String) : String → Option Exc :=
   let l := (splitList s).filterMap (fun t => match t.splitOn ":" with
@@ -19,7 +22,7 @@ def topHandle (st : EngineSt) (a : Args) : EngineSt × String :=
   match parseCfg a, natList? (a.get "picks") with
   | some cfg, some picks =>
     let fl : Faults := { configure := parseExc (a.get "conf"), phase := parsePhaseFaults (a.get "ph"),
-                         unconfigure := parseExc (a.get "unconf") }
+                         unconfigure := parseExc (a.get "unconf"), importRaises := parseExc (a.get "imp") }
     match buildTop bodyF st.P cfg st.w picks fl with
     | .error (.notReady t) => (st, s!"illegal:not-ready:{t}")
     | .error (.unknownTask t) => (st, s!"illegal:unknown:{t}")
